@@ -161,7 +161,10 @@ def _init_checks(ctx, N, cls, pkg, axis, S, name, pcov):
         want_n = 2 if vname == "list2" else 1
         ctx.ob("R-INIT", f"{name}.{pkg}.n_selected_ after initialisation[{vname}]", nsel is not None and nsel.has_const and nsel.const == want_n, f"n_selected_ = {nsel!r}, expected {want_n}", site, cfg)
         # (an in-place minimum issued by the update itself or by a helper it calls)
-        ups = [e for e in I.events[mark:] if e["kind"] == "mutate" and e.get("how") == "out=" and any(s_.endswith("_update_hausdorff") for s_ in e.get("stack", ()))]
+        hv_ = ctx.attr(st, o, "hausdorff_")
+        hloc_ = getattr(hv_, "loc", None)
+        # (writes into scratch buffers of the update do not count: the table itself is what must be lowered once per index)
+        ups = [e for e in I.events[mark:] if e["kind"] == "mutate" and e.get("how") == "out=" and any(s_.endswith("_update_hausdorff") for s_ in e.get("stack", ())) and (hloc_ is None or getattr(e["target"], "loc", None) == hloc_)]
         ctx.ob("R-INIT", f"{name}.{pkg}.every initial index goes through the distance update[{vname}]", len(ups) == want_n, f"{len(ups)} distance updates for {want_n} initial indices", site, cfg)
         # the candidate pushed through the k-th initial distance update is the k-th stored index
         pushed = []
@@ -224,6 +227,12 @@ def _argmax_check(ctx):
         while x.op == "store":
             x = x.args[0]
         ok2 = x == scores.term
+    if not ok2 and inner is not None:
+        # the same vector written another way (mask + where): compare with the reference step
+        I2, s2 = ctx.interp(), State()
+        ref = ctx.call_func(I2, s2, "ref.selection_ref.best_new_selection", scores, arr("sel", "S", inp=False, dtype="int"), integer("Q"), None, "absolute", None)
+        N_ = ctx.normalizer()
+        ok2 = ref is not None and N_.nf(t) == N_.nf(ref.term)
     ctx.ob("R-ARGMAX", "argmax is taken over the scorer's own vector", ok2, f"argmax argument {inner!r}", ctx.site(m))
 
 
